@@ -472,6 +472,50 @@ def run_nested(ctx, variant):
         # wrong structure is rejected
         wrong = P.explore(lambda: sp.validate((vp, vq)))
         R.ob("validate.plain_tuple_is_rejected", all(o[0] == "exc" for _, o in wrong))
+        # "validate accepts exactly the values whose STRUCTURE matches": a value with a field the spec does not declare, without a declared field,
+        # or with a differently named field is rejected, at the top level and inside a nested child, whatever its leaves hold
+        class InnerExtra(NamedTuple):
+            p: object
+            q: object
+            extra: object
+
+        class InnerMissing(NamedTuple):
+            p: object
+
+        class InnerRenamed(NamedTuple):
+            p: object
+            r: object
+
+        class OuterExtra(NamedTuple):
+            a: object
+            inner: object
+            d: object
+            extra: object
+
+        leaf_q = vqs if variant == "flat" else vq
+        if variant == "flat":
+            shapes = {"extra_field": InnerExtra(p=vp, q=leaf_q, extra=vp), "missing_field": InnerMissing(p=vp), "renamed_field": InnerRenamed(p=vp, r=leaf_q)}
+        else:
+            shapes = {"extra_field": OuterExtra(a=va, inner=Inner(p=vp, q=vq), d=vd, extra=vd),
+                      "extra_field_in_nested_child": Outer(a=va, inner=InnerExtra(p=vp, q=vq, extra=vp), d=vd),
+                      "missing_field_in_nested_child": Outer(a=va, inner=InnerMissing(p=vp), d=vd),
+                      "renamed_field_in_nested_child": Outer(a=va, inner=InnerRenamed(p=vp, r=vq), d=vd)}
+        for tag, bad_val in shapes.items():
+            def rp_struct(m, _tag=tag, _bad=bad_val):
+                # native replay on the real specs module: the same structure with in-range concrete leaves
+                def conc(x):
+                    if isinstance(x, tuple) and hasattr(x, "_fields"):
+                        return type(x)(*[conc(y) for y in x])
+                    return jnp.zeros(x.shape, x.dtype)
+                rs = real_specs
+                inner_r = rs.Spec(Inner, "i", p=rs.BoundedArray((2,), jnp.int32, -5, 5, "p"), q=rs.Array((3,), jnp.float32, "q"))
+                spec_r = (rs.Spec(Inner, "o", p=rs.BoundedArray((2,), jnp.int32, -5, 5, "p"), q=rs.BoundedArray((), jnp.float32, -5.0, 5.0, "q")) if variant == "flat"
+                          else rs.Spec(Outer, "o", a=rs.BoundedArray((), jnp.float32, -5.0, 5.0, "a"), inner=inner_r, d=rs.DiscreteArray(3, jnp.int32, "d")))
+                o = native(lambda: spec_r.validate(conc(_bad)))
+                return {"inputs": {"value_structure": repr(type(_bad).__name__) + " " + _tag, "leaves": "all zero (inside every bound)"},
+                        "native_outcome": outcome_kind(o) if o[0] == "exc" else "accepted", "confirmed": o[0] != "exc"}
+            wpaths = P.explore(lambda: sp.validate(bad_val))
+            R.ob(f"validate.structure_mismatch.{tag}_is_rejected", all(o[0] == "exc" for _, o in wpaths), replay=rp_struct)
         g = P.explore(lambda: sp.validate(sp.generate_value()))
         R.total("generate_value.is_accepted_by_validate", g, ())
         # equality: total, reflexive, true iff children equal
